@@ -61,7 +61,8 @@ def run(prog, tier) -> Result:
             rule = "R04.1" if name != "__eq__" else "R04.2"
             cr.run(rule, Q(name), f"{name} same type [{fl}]", two_qty_same_type(fl), judge_compare(name, fl),
                    site=f"Quantity.{name}")
-    for fl in FLAVORS:
+    # the private helper all ordering dunders share, if there is one (its name is derived, qsa/roles.py)
+    for fl in (FLAVORS if "_compare" in prog.cls("Quantity").methods else ()):
         cr.run("R04.2", Q("_compare"), f"_compare(op=lt) same type [{fl}]",
                lambda c, fl=fl: (two_qty_same_type(fl)(c)[0] + [FuncV("operator.lt")], {}),
                judge_compare("__lt__", fl))
@@ -90,6 +91,6 @@ def run(prog, tier) -> Result:
                sig="custom __ne__", nontrivial=False)
 
     res.require("R04.1", 32)
-    res.require("R04.2", 8)
+    res.require("R04.2", 8 if "_compare" in prog.cls("Quantity").methods else 4)
     res.require("R04.3", 10)
     return res
